@@ -84,6 +84,8 @@ func (q *Queue) Dequeue() []byte {
 	verifYield("Q_deq_put")
 	q.depthChan <- q.depth
 
+	verifYield("Q_deq_ret")
+
 	return b
 }
 
@@ -109,6 +111,8 @@ func (q *Queue) DequeueAll() []byte {
 	<-q.depthChan
 	verifYield("Q_all_put")
 	q.depthChan <- q.depth
+
+	verifYield("Q_all_ret")
 
 	return bytes.Join(b, []byte{})
 }
